@@ -339,11 +339,30 @@ def check(ctx):
         x = st.targets[0].id
         return S.unparse(st.value) == (f"{left!r} + {x} + {right!r}" if right is not None else f"{left!r} + {x}")
 
+    # a local that carries the previous element of the walk over the modifiers: None before the loop, `prev = <loop variable>` as the last statement of each round
+    pm_ = gt.args.args[2].arg
+    mod_loops = [n for n in ast.walk(gt) if isinstance(n, ast.For) and S.unparse(n.iter) in (f"enumerate({pm_})", pm_)]
+    prev_vars = set()
+    for lp_ in mod_loops:
+        lv_ = lp_.target.elts[-1].id if isinstance(lp_.target, ast.Tuple) and isinstance(lp_.target.elts[-1], ast.Name) else (lp_.target.id if isinstance(lp_.target, ast.Name) else None)
+        last_ = lp_.body[-1] if lp_.body else None
+        if lv_ and isinstance(last_, ast.Assign) and len(last_.targets) == 1 and isinstance(last_.targets[0], ast.Name) and isinstance(last_.value, ast.Name) and last_.value.id == lv_:
+            pv_ = last_.targets[0].id
+            inits = [a for a in ast.walk(gt) if isinstance(a, (ast.Assign, ast.AnnAssign)) and a.lineno < lp_.lineno and any(isinstance(t, ast.Name) and t.id == pv_ for t in (a.targets if isinstance(a, ast.Assign) else [a.target]))
+                     and isinstance(a.value, ast.Constant) and a.value.value is None]
+            others = [a for a in ast.walk(gt) if isinstance(a, ast.Name) and a.id == pv_ and isinstance(a.ctx, ast.Store)]
+            if inits and len(others) == 2:
+                prev_vars.add(pv_)
+
     def _prev_is_ptr(test):
-        """`<i> != 0 and isinstance(modifiers[<i> - 1], c_ast.PtrDecl)` for the loop index <i> over enumerate(modifiers)"""
+        """`<i> != 0 and isinstance(modifiers[<i> - 1], c_ast.PtrDecl)` for the loop index <i> over enumerate(modifiers), or `isinstance(<prev>, c_ast.PtrDecl)`
+        for a local that carries the previous modifier"""
         txt = S.unparse(test)
         import re as _re
-        return bool(_re.fullmatch(r"(\w+) != 0 and isinstance\((\w+)\[\1 - 1\], c_ast\.PtrDecl\)", txt))
+        if _re.fullmatch(r"(\w+) != 0 and isinstance\((\w+)\[\1 - 1\], c_ast\.PtrDecl\)", txt):
+            return True
+        m_ = _re.fullmatch(r"isinstance\((\w+), c_ast\.PtrDecl\)", txt)
+        return bool(m_ and m_.group(1) in prev_vars)
     wraps = [n for n in ast.walk(gt) if isinstance(n, ast.If) and _prev_is_ptr(n.test) and any(_wraps_self(s, "(", ")") for s in n.body)]
     # the same test-and-wrap extracted into a helper: `x = self.H(x, modifiers, i)` with H = `if <prev is pointer>: return "(" + x + ")"; return x`
     for hname, h in g.methods.items():
@@ -368,11 +387,11 @@ def check(ctx):
     ctx.oblige("R-C07.5", "modifiers are collected outermost first on the way down to the TypeDecl", ok)
     if not ok:
         viol("R-C07.5", "modifier-order", "_generate_type must recurse with (n.type, modifiers + [n]): modifiers are applied innermost first when the TypeDecl is reached", "CGenerator._generate_type", gt)
-    loops = [n for n in ast.walk(gt) if isinstance(n, ast.For) and S.unparse(n.iter) == "enumerate(modifiers)"]
+    loops = mod_loops
     ok = len(loops) == 1
     ctx.oblige("R-C07.5", "modifiers are walked in order", ok)
     if not ok:
-        viol("R-C07.5", "modifier-walk", "_generate_type must walk `enumerate(modifiers)` in order", "CGenerator._generate_type", gt)
+        viol("R-C07.5", "modifier-walk", "_generate_type must walk the modifiers in order, in one loop", "CGenerator._generate_type", gt)
     ptr = cases.get("PtrDecl")
     ok = ptr is not None and any(_wraps_self(s, "*", None) for s in ast.walk(ptr))
     ctx.oblige("R-C07.5", "a pointer modifier prefixes '*'", ok)
